@@ -216,7 +216,8 @@ MANIFEST = {
 
 HARNESSES = [
     H(name="c10_kernels", fn=kernels, shape="K", budget=lambda tier: 900.0 if tier == "quick" else 3000.0,
-      cubes=lambda tier: [dict({"policy": a, "advance0": 0, "advance1": b}, **({"offset0": 1} if tier == "quick" else {})) for a in range(len(POL)) for b in range(4)],
+      cubes=lambda tier: [dict({"policy": a, "advance0": 0, "advance1": b, "offset0": 1}, **({} if tier == "quick" else {"offset1": o}))
+                          for a in range(len(POL)) for b in range(4) for o in ((0,) if tier == "quick" else (0, 1, 2))],
       require=lambda tier: ["denied", "two_admitted"], classify=kernels_classify,
       functions=["TokenBucketPolicy.try_acquire/time_until_available/_refill", "LeakyBucketPolicy.*", "SlidingWindowPolicy.*/_prune",
                  "FixedWindowPolicy.*/_get_window_start/_maybe_reset", "AdaptivePolicy.*/record_success/record_failure", "Instant/Duration arithmetic"],
